@@ -560,3 +560,13 @@
 ;@ghost rlIn (Seq String)
 ;@ghost rlOut (Seq String)
 ;@ghost rlOk (Seq Bool)
+
+;@chunk uritext uriBody uriNoHdr uriHdrPart uriCore uriParamPart uriHostPort uriUserInfo
+; the parts of a sip:/sips: URI text as ParseSipURI cuts it: scheme, then [?headers] off the end, then [;params], then [userinfo@]hostport
+(define-fun uriBody ((u String)) String (ite (str.prefixof "sip:" u) (str.substr u 4 (- (str.len u) 4)) (str.substr u 5 (- (str.len u) 5))))
+(define-fun uriNoHdr ((b String)) String (ite (>= (str.indexof b "?" 0) 0) (str.substr b 0 (str.indexof b "?" 0)) b))
+(define-fun uriHdrPart ((b String)) String (str.substr b (+ (str.indexof b "?" 0) 1) (- (str.len b) (+ (str.indexof b "?" 0) 1))))
+(define-fun uriCore ((n String)) String (ite (>= (str.indexof n ";" 0) 0) (str.substr n 0 (str.indexof n ";" 0)) n))
+(define-fun uriParamPart ((n String)) String (str.substr n (+ (str.indexof n ";" 0) 1) (- (str.len n) (+ (str.indexof n ";" 0) 1))))
+(define-fun uriHostPort ((c String)) String (ite (>= (str.indexof c "@" 0) 0) (str.substr c (+ (str.indexof c "@" 0) 1) (- (str.len c) (+ (str.indexof c "@" 0) 1))) c))
+(define-fun uriUserInfo ((c String)) String (ite (>= (str.indexof c "@" 0) 0) (str.substr c 0 (str.indexof c "@" 0)) ""))
